@@ -4665,6 +4665,17 @@ impl Handler {
             }
             _ => (None, None),
         };
+        // A create can only have succeeded if the graph did not exist beforehand. (The text
+        // may hold further lines, e.g. `.kg create k1` + `.kg use k1`, so `switched_kg`
+        // alone does not prove that this request created the graph.)
+        let kg_create_is_new = kg_create_name.as_ref().is_some_and(|name| {
+            !self
+                .storage
+                .read()
+                .list_knowledge_graphs()
+                .iter()
+                .any(|kg| kg == name)
+        });
 
         let result = if is_query {
             if let Some(sid) = session_id {
@@ -4686,7 +4697,7 @@ impl Handler {
         if let Some(identity) = effective_auth {
             if identity.role != crate::auth::Role::Admin {
                 if let Some(ref name) = kg_create_name {
-                    if result.switched_kg.as_deref() == Some(name.as_str()) {
+                    if kg_create_is_new && result.switched_kg.as_deref() == Some(name.as_str()) {
                         let _ = self.handle_kg_acl_grant(name, &identity.username, "owner");
                     }
                 }
